@@ -553,7 +553,9 @@ func (d *Downstream) resume(parentConn *Conn) error {
 	if !d.state.Is(streamStatusResuming) {
 		return fmt.Errorf("invalid state want[%v] but[%v]", streamStatusResuming, d.state)
 	}
+	parentConn.wireConnMu.Lock()
 	d.wireConn = parentConn.wireConn
+	parentConn.wireConnMu.Unlock()
 
 	var resErr error
 	// the subscriptions are made once and kept when a request answered with a conflict is retried
